@@ -47,7 +47,7 @@ def main():
     rows = [json.load(open(p)) for p in paths]
     with open(os.path.join(VERIF, "seeded", "README.md"), "w") as f:
         f.write("# Seeded breaking changes\n\nEach directory holds `patch.diff` (apply with `git -C /repo apply`), `demo.py` (exit 1 with the patch, 0 without) "
-                "and `meta.json`.  All were written by independent sub-agents that saw only the property text and a scratch worktree; each was "
+                "and `meta.json`.  All but four were written by independent sub-agents that saw only the property text and a scratch worktree (the four are reverts of fix: commits of /repo, kept as regression seeds); each was "
                 "confirmed (demo fails with / passes without the patch; the 243 stable tests still pass with it).  `harness/seed_eval.py <dir>` "
                 "re-runs the check of the property against the change in a scratch worktree; `harness/seed_matrix.py` regenerates this table.\n\n"
                 "| Seed | Property | Needs, to manifest | Check verdict (quick) | Failing clause(s) |\n|---|---|---|---|---|\n")
